@@ -610,11 +610,37 @@ func r033(c *Ctx, rule string) {
 			if _, ok := cs.instr.(*ssa.Call); !ok {
 				continue
 			}
-			if f, _, ok := fieldLoad(resolve(cs.common().Args[0])); ok {
+			// the balancer drained: a slot, or every element of a list of slots built just before (each under its conditions;
+			// the closure must then be made for every element and handed to the joining helper)
+			type cand struct {
+				val   ssa.Value
+				conds []condEdge
+			}
+			var cands []cand
+			recv := resolve(cs.common().Args[0])
+			if src, full := fullRangeElem(recv); full {
+				if els, ok := listContents(src); ok {
+					mk := makeClosureOf(cl)
+					var outer []condEdge
+					if mk != nil {
+						outer = condsOtherThanLoop(dominatingConds(mk.Block()))
+					}
+					for _, e := range els {
+						cands = append(cands, cand{e.val, append(append(append([]condEdge{}, e.conds...), outer...), dominatingConds(cs.instr.Block())...)})
+					}
+				}
+			} else {
+				cands = append(cands, cand{recv, dominatingConds(cs.instr.Block())})
+			}
+			for _, cd := range cands {
+				f, _, ok := fieldLoad(cd.val)
+				if !ok {
+					continue
+				}
 				to := resolve(cs.common().Args[1])
 				// the only admissible guard is a nil test of that same slot
 				guardsOK := true
-				for _, ce := range dominatingConds(cs.instr.Block()) {
+				for _, ce := range cd.conds {
 					cm, ok := ce.asCmp()
 					if !ok || cm.op != token.NEQ || !((isLoadOfField(resolve(cm.x), f) && isNilConst(cm.y)) || (isLoadOfField(resolve(cm.y), f) && isNilConst(cm.x))) {
 						guardsOK = false
